@@ -374,9 +374,125 @@ def const_list(node, const_eval=None, limit=4096):
     return v if isinstance(v, list) and all(isinstance(x, int) for x in v) else None
 
 
+def _cfold(ctx, init, node, env):
+    """constant folding of a table-building expression under an environment of loop variables; None = not a constant"""
+    if isinstance(node, ast.Constant):
+        return node.value
+    if isinstance(node, ast.Name):
+        if node.id in env:
+            return env[node.id]
+    if isinstance(node, (ast.List, ast.Tuple)):
+        xs = [_cfold(ctx, init, e, env) for e in node.elts]
+        if any(x is None for x in xs):
+            return None
+        return xs if isinstance(node, ast.List) else tuple(xs)
+    if isinstance(node, ast.BinOp) and isinstance(node.op, (ast.Add, ast.Mult, ast.Sub, ast.FloorDiv)):
+        a, b = _cfold(ctx, init, node.left, env), _cfold(ctx, init, node.right, env)
+        if a is None or b is None:
+            return None
+        try:
+            if isinstance(node.op, ast.Add):
+                return a + b
+            if isinstance(node.op, ast.Mult):
+                if isinstance(a, (list, tuple)) and isinstance(b, int) and len(a) * max(b, 0) > 4096:
+                    return None
+                if isinstance(b, (list, tuple)) and isinstance(a, int) and len(b) * max(a, 0) > 4096:
+                    return None
+                return a * b
+            if isinstance(node.op, ast.Sub):
+                return a - b
+            return a // b
+        except Exception:
+            return None
+    if isinstance(node, ast.Call) and isinstance(node.func, ast.Name) and node.func.id in ("range", "list", "tuple", "len") and not node.keywords:
+        xs = [_cfold(ctx, init, a, env) for a in node.args]
+        if any(x is None for x in xs):
+            return None
+        try:
+            if node.func.id == "range":
+                r = range(*xs)
+                return list(r) if len(r) <= 4096 else None
+            if node.func.id == "len":
+                return len(xs[0])
+            return list(xs[0]) if node.func.id == "list" else tuple(xs[0])
+        except Exception:
+            return None
+    v = ctx.prog.const_eval(node, init.mod, init.cls)
+    from sa.model import NOCONST
+    return None if v is NOCONST else v
+
+
+def _lut_fold(ctx, init):
+    """the table as built by an assignment followed by constant-foldable in-place growth (append / extend / += in straight-line code and in
+    `for` loops over constant iterables); None when any statement that touches the table is not of that kind"""
+    def is_tab(n):
+        return isinstance(n, ast.Attribute) and n.attr == "_LUT_FD_DLC"
+    tab = None
+
+    def grow(st, env):
+        nonlocal tab
+        if isinstance(st, ast.AugAssign) and is_tab(st.target) and isinstance(st.op, ast.Add):
+            v = _cfold(ctx, init, st.value, env)
+            if not isinstance(v, (list, tuple)) or tab is None:
+                return False
+            tab = tab + list(v)
+            return True
+        if isinstance(st, ast.Expr) and isinstance(st.value, ast.Call) and isinstance(st.value.func, ast.Attribute) and is_tab(st.value.func.value) \
+                and st.value.func.attr in ("append", "extend") and len(st.value.args) == 1 and tab is not None:
+            v = _cfold(ctx, init, st.value.args[0], env)
+            if v is None:
+                return False
+            if st.value.func.attr == "append":
+                tab = tab + [v]
+            elif isinstance(v, (list, tuple)):
+                tab = tab + list(v)
+            else:
+                return False
+            return True
+        return False
+    for st in init.node.body:
+        touches = any(is_tab(n) for n in ast.walk(st))
+        if not touches:
+            continue
+        if isinstance(st, ast.Assign) and len(st.targets) == 1 and is_tab(st.targets[0]):
+            v = _cfold(ctx, init, st.value, {})
+            if not isinstance(v, (list, tuple)):
+                return None
+            tab = list(v)
+            continue
+        if isinstance(st, ast.For) and not st.orelse:
+            it = _cfold(ctx, init, st.iter, {})
+            if not isinstance(it, (list, tuple)) or len(it) > 4096:
+                return None
+            for item in it:
+                env = {}
+                if isinstance(st.target, ast.Name):
+                    env[st.target.id] = item
+                elif isinstance(st.target, ast.Tuple) and all(isinstance(t, ast.Name) for t in st.target.elts) and \
+                        isinstance(item, (list, tuple)) and len(item) == len(st.target.elts):
+                    env.update({t.id: x for t, x in zip(st.target.elts, item)})
+                else:
+                    return None
+                for b in st.body:
+                    if not grow(b, env):
+                        return None
+            continue
+        if not grow(st, {}):
+            return None
+    return tab
+
+
 def lut_table(ctx, L):
     """the DLC look-up table built by the constructor, as a Python list (or None)"""
     init = ctx.prog.func(L.cls, "__init__")
+    folded = _lut_fold(ctx, init)
+    if folded is not None and all(isinstance(x, int) for x in folded):
+        return folded
+    # the table is touched by a statement that is not constant-foldable: whatever the first assignment says is not the final table
+    n_touch = sum(1 for st in init.node.body if any(isinstance(n, ast.Attribute) and n.attr == "_LUT_FD_DLC" for n in ast.walk(st)))
+    if n_touch > 1 and not any(isinstance(st, ast.Assign) and isinstance(st.value, ast.List) and not st.value.elts and isinstance(st.targets[0], ast.Attribute)
+                               and st.targets[0].attr == "_LUT_FD_DLC" for st in init.node.body):
+        return None
     out = []
     started = False
     for st in init.node.body:
@@ -806,12 +922,19 @@ def state_own(ctx, L, rule="R-STATE-OWN"):
     class_level = {t.id for st in cls.node.body if isinstance(st, ast.Assign) for t in st.targets if isinstance(t, ast.Name)}
     mod_level = {t.id for st in ctx.prog.modules[cls.mod].body if isinstance(st, ast.Assign) for t in st.targets if isinstance(t, ast.Name)}
     n = 0
+    pairs = []
     for x in ast.walk(init.node):
-        if not (isinstance(x, ast.Assign) and len(x.targets) == 1 and isinstance(x.targets[0], ast.Attribute) and
-                isinstance(x.targets[0].value, ast.Name) and x.targets[0].value.id == "self" and x.targets[0].attr in mutated):
+        if not isinstance(x, ast.Assign):
             continue
-        fld = x.targets[0].attr
-        v = x.value
+        for t in x.targets:
+            if isinstance(t, ast.Tuple) and isinstance(x.value, ast.Tuple) and len(t.elts) == len(x.value.elts):
+                pairs.extend((tt, vv, x) for tt, vv in zip(t.elts, x.value.elts))
+            else:
+                pairs.append((t, x.value, x))
+    for t, v, x in pairs:
+        if not (isinstance(t, ast.Attribute) and isinstance(t.value, ast.Name) and t.value.id == "self" and t.attr in mutated):
+            continue
+        fld = t.attr
         inst = "%s self.%s is created by the constructor" % (L.tag, fld.lstrip("_"))
         shared = None
         if isinstance(v, ast.Attribute) and isinstance(v.value, ast.Name) and v.value.id in ("self", "cls", L.cls, "type") and v.attr in class_level:
